@@ -36,7 +36,9 @@ def o_fromscratch(rec, world, hist):
         return out
     wants = rec.op.get("cfg", {}).get("output", True) and world.get("output") is not None
     exp = ref.eval_output(world, seen, rec.built.objs) if wants else None
-    if not typed_equal(rec.result, exp):
+    # (by value and exact types: parts of the output may have been read from stores that an earlier process lifetime
+    #  wrote, so opaque argument objects inside it are compared by their label)
+    if canon(rec.result) != canon(exp):
         out.append(V("incremental-output", f"incremental run returned {canon(rec.result)[:300]}; from scratch: {canon(exp)[:300]}"))
         return out
     pure = pure_sources(world)
@@ -245,6 +247,13 @@ def o_writeread(rec, world, hist):
         if not r_sts:
             continue
         rs = r_sts[0][0]
+        if sum(1 for m in world["nodes"] if m.get("store") == n["store"]) > 1:
+            # the same store object sits behind another registry entry, too: its reads cannot be told apart in the
+            # log. If the source's value is consumed at all, its own read is at the latest the last of them.
+            needed_reads = stale_and_needed(rec, world)[3]
+            if n["id"] not in needed_reads:
+                continue
+            rs = max(x[0] for x in r_sts)
         # calls it depends on: through unregistered nodes and through
         # registered nodes that are themselves out of date (an up-to-date
         # registered node is a boundary: it is not recomputed)
